@@ -54,9 +54,9 @@ impl<T: RefCnt> CaS<T> for RwLock<()> {
         new: T,
     ) -> Self::Protected {
         #[cfg(not(arc_swap_verif))]
-        let _lock = self.write();
+        let lock = self.write();
         #[cfg(arc_swap_verif)]
-        let _lock = crate::verif::lock::write(self);
+        let lock = crate::verif::lock::write(self);
         let cur = current.as_raw();
         let new = T::into_ptr(new);
         let swapped = storage.compare_exchange(cur, new, Ordering::AcqRel, Ordering::Relaxed);
@@ -66,9 +66,16 @@ impl<T: RefCnt> CaS<T> for RwLock<()> {
         };
         let old = T::from_ptr(old as *const T::Base);
         if swapped.is_err() {
-            // If the new didn't go in, we need to destroy it and increment count in the old that
-            // we just duplicated
+            // If the new didn't go in, we need to increment count in the old that we just
+            // duplicated
             T::inc(&old);
+        }
+        // The destructors of the pointees are user code and may panic. Run them only once the
+        // lock is released, so such a panic doesn't poison it (and make every later operation
+        // panic).
+        drop(lock);
+        if swapped.is_err() {
+            // If the new didn't go in, we need to destroy it
             drop(T::from_ptr(new));
         }
         drop(current);
